@@ -397,6 +397,26 @@ func checkC17(R *Run) {
 			}
 			why += " is reachable without writing the ban file; "
 		}
+		// the list is written out while the ban list's mutex is held: otherwise two overlapping bans can rename the
+		// older snapshot last and the file loses a ban that memory has (gone after a restart or reload)
+		{
+			L := newLockInfo(P)
+			for _, ci := range callsIn(add) {
+				if !isPersist(ci.(ssa.Instruction)) {
+					continue
+				}
+				held := false
+				for id := range L.at[ci.(ssa.Instruction)] {
+					if strings.HasPrefix(id.Field, "mobius.BanFile") {
+						held = true
+					}
+				}
+				if !held {
+					okAll = false
+					why += "the ban file is written at " + P.ipos(ci) + " without the ban list's mutex held (held: " + fmt.Sprint(L.at[ci.(ssa.Instruction)].names()) + "): overlapping bans can leave the older snapshot on disk; "
+				}
+			}
+		}
 		// the data written is the marshalled list
 		if marshal != nil {
 			dataOK := false
